@@ -126,8 +126,8 @@ def plans(fam, lens, tier, rng):
         others = [b for b in range(n) if b != a]
         for i in range(0, lens[a] + 1):
             out.append(("switch1", [(a, i)] + [(b, None) for b in others] + [(a, None)]))
-    if tier != "quick" or "maintenance" in fam["name"]:
-        si, sj = (2, 3) if tier != "quick" else (3, 4)
+    if tier != "quick" or "maintenance-vs-ensure" in fam["name"] or "maintenance-vs-maintenance" in fam["name"]:
+        si, sj = (2, 3) if tier != "quick" else (4, 5)
         for a in range(n):
             for b in range(n):
                 if a == b:
